@@ -55,8 +55,11 @@ class World:
             ev += [("toggle", i, True), ("toggle", i, False), ("retain", i), ("bw", i)]
         return ev
 
-    def _new_model(self, rg, nonleaf, fl, parents=()):
-        return dict(rg=bool(rg), nonleaf=bool(nonleaf), float=fl, retain=False, under_ret=self.m_ret,
+    def _new_model(self, rg, nonleaf, fl, parents=(), origin="ctor"):
+        # origin: how the tensor came about.  The specification does not distinguish a constructed leaf from an untracked
+        # operation result, but an implementation can (it may remember the operation): keeping it in the canonical state stops
+        # the search from merging the two, so histories through untracked results are explored in their own right.
+        return dict(rg=bool(rg), nonleaf=bool(nonleaf), float=fl, retain=False, under_ret=self.m_ret, origin=origin,
                     grad=False, gradknown=True, parents=tuple(parents), used=False, ever_rg=bool(rg))
 
     def apply(self, e, check=True):
@@ -136,12 +139,13 @@ class World:
                 rg = self.m_grad and any(self.m[p]["rg"] for p in ps)
                 if rg:
                     for p in ps: self.m[p]["used"] = True
-                self.ten.append(t); self.m.append(self._new_model(rg, rg, True, ps if rg else ()))
+                origin = "op" if rg else ("op-nograd" if any(self.m[p]["rg"] for p in ps) else "op-const")
+                self.ten.append(t); self.m.append(self._new_model(rg, rg, True, ps if rg else (), origin=origin))
         elif k == "detach":
             raised, t = attempt(lambda: self.ten[e[1]].detach())
             if raised: v("op-raised", f"{e}: {t!r}")
             else:
-                self.ten.append(t); self.m.append(self._new_model(False, False, True))
+                self.ten.append(t); self.m.append(self._new_model(False, False, True, origin="detach"))
         elif k == "toggle":
             i, val = e[1], e[2]; m = self.m[i]
             def f(): self.ten[i].requires_grad = val
@@ -243,7 +247,7 @@ class World:
             return (tuple((k, a, repr(sorted(vars(o).items()))) for k, o, a in self.ctx), tuple(self.stack),
                     self.m_grad, self.m_ret, tuple(self.m_saved),
                     tuple((m["rg"], m["nonleaf"], m["float"], m["retain"], m["under_ret"], m["grad"], m["gradknown"],
-                           m["parents"], m["used"], m["ever_rg"], str(t.dtype), t.grad is not None)
+                           m["parents"], m["used"], m["ever_rg"], m["origin"], str(t.dtype), t.grad is not None)
                           for t, m in zip(self.ten, self.m)))
 
 def make_world():
